@@ -127,6 +127,23 @@ fn main() {
             let cfg = pgverif::gen::mapping::GenCfg { plain_sourcefile_headers: true, ..Default::default() };
             let cases = pgverif::engine::sample_n(&pgverif::props::common::map_case(&cfg), seed, 40);
             let mut n = 0;
+            if args[2] == "C07" || args[2] == "C17" {
+                // rendered text traces over the names of the fuzz seed mappings
+                let pool = pgverif::gen::trace::NamePool {
+                    classes: ["a", "b", "c", "d", "a.B", "zz.Unknown"].iter().map(|s| s.to_string()).collect(),
+                    methods: ["a", "b", "x", "y"].iter().map(|s| s.to_string()).collect(),
+                    lines: vec![0, 1, 2, 3, 5, 6, 7, 9],
+                    hits: vec![("a".into(), "x".into(), 3), ("a".into(), "a".into(), 1), ("c".into(), "a".into(), 2), ("d".into(), "b".into(), 5)],
+                };
+                for (i, t) in pgverif::engine::sample_n(&pgverif::gen::trace::text_trace(&pool, 10), seed, 40).into_iter().enumerate() {
+                    let mut data = if args[2] == "C07" { vec![(i % 3) as u8 | if i % 5 == 0 { 0x40 } else { 0 }] } else { Vec::new() };
+                    data.extend_from_slice(t.render().as_bytes());
+                    let _ = std::fs::write(dir.join(format!("gen-{n:03}")), data);
+                    n += 1;
+                }
+                println!("{n} seeds written to {}", dir.display());
+                exit(0)
+            }
             for c in cases {
                 let b = c.bytes();
                 let data: Vec<u8> = match args[2].as_str() {
